@@ -474,8 +474,9 @@ func (c *Cholesky) Scale(f float64, orig *Cholesky) {
 	n := orig.SymmetricDim()
 	if c.chol == nil {
 		c.chol = NewTriDense(n, Upper, nil)
-	} else if c.chol.mat.N != n {
-		panic(ErrShape)
+	} else {
+		// Panics with ErrShape for a non-empty receiver of another size.
+		c.chol.reuseAsNonZeroed(n, Upper)
 	}
 	c.chol.ScaleTri(math.Sqrt(f), orig.chol)
 	c.cond = orig.cond // Scaling by a positive constant does not change the condition number.
@@ -571,7 +572,7 @@ func (c *Cholesky) SymRankOne(orig *Cholesky, alpha float64, x Vector) (ok bool)
 	if r, c := x.Dims(); r != n || c != 1 {
 		panic(ErrShape)
 	}
-	if orig != c && c.chol != nil && c.chol.mat.N != n {
+	if orig != c && !c.IsEmpty() && c.chol.mat.N != n {
 		panic(ErrShape)
 	}
 	// copyOrig makes the receiver a copy of orig. It is only called when
@@ -583,6 +584,8 @@ func (c *Cholesky) SymRankOne(orig *Cholesky, alpha float64, x Vector) (ok bool)
 		}
 		if c.chol == nil {
 			c.chol = NewTriDense(n, Upper, nil)
+		} else {
+			c.chol.reuseAsNonZeroed(n, Upper)
 		}
 		c.chol.Copy(orig.chol)
 		c.cond = orig.cond
@@ -729,6 +732,8 @@ func (c *Cholesky) SymRankOne(orig *Cholesky, alpha float64, x Vector) (ok bool)
 	if ok {
 		if c.chol == nil {
 			c.chol = NewTriDense(n, Upper, nil)
+		} else {
+			c.chol.reuseAsNonZeroed(n, Upper)
 		}
 		c.chol.Copy(workMat)
 		c.updateCond(-1)
